@@ -4,8 +4,8 @@ from checks.engine_common import run_engine
 META = {
     "property_id": "C13",
     "technique": "Coq proof over a Gallina model of the build engine + history correspondence with fresh-process builds",
-    "level_text": 'Theorems: dry_run_no_effects, dry_build_no_effects, load_refresh_invisible/idempotent, dry_run_transparent, dry_run_predicts (evaluating sets of the dry run and of a fully successful real build coincide, under gens_unique). Correspondence + oracle: tree hash (files + persisted state) unchanged by a dry Run, evaluating sets of dry and following real build equal, incl. scripted always-target and in-process dry/reload/run scenarios.',
-    "level_note": 'Trusted: as C01. The failing-body half of the prediction statement (identical apart from targets downstream of the failure) is decided by oracle + correspondence only.',
+    "level_text": 'Theorems: dry_run_no_effects, dry_build_no_effects, load_refresh_invisible/idempotent, dry_run_transparent, dry_run_predicts_attempted (for every target the real build did not cut off below a failed dependency -- succeeded, own body failed, or unvisited -- the dry run reports evaluating iff the real build does: identical apart from targets downstream of a failure; under gens_unique), dry_run_predicts (its all-successful corollary). Correspondence + oracle: tree hash (files + persisted state) unchanged by a dry Run, evaluating sets of dry and following real build equal, incl. scripted always-target and in-process dry/reload/run scenarios; a dry Run over a dependency cycle whose error returns while a sibling target is still being evaluated: no body and no state change after Run has returned either.',
+    "level_note": 'Trusted: as C01. What stragglers do after Run returned is decided by the harness (hook-held target), not by the sequential model.',
     "design_ref": "DESIGN.md §6 C13",
 }
 
